@@ -134,6 +134,7 @@ def run(tier, seed):
         s_ = tq.build_series(m0, steps)
         if s_:
             series.append(s_)
+    series += tq.special_series(m0)
     # an unpatchable target (I/O error) is not a patch failure: such pushes are refused as a whole (C17's subject)
     series = [s for s in series if not any(fp.error for p in s for fp in p.fps)]
     acc = wsweep.Acc(res)
